@@ -1048,19 +1048,22 @@ fn family_a(run: &Run, shv: &Shared) {
         let n = sh.n();
         let t_count = if sh.tree { sh.k } else { 1 };
         // bookmark lists: family A is about number sets x assignments; the full 0..3 tuples are family B's
-        let cfgs = if thorough && n <= 4 {
+        let cfgs = if thorough && (n <= 4 || t_count == 1) {
             bookmark_configs(t_count, 3, true)
-        } else if thorough && t_count == 1 {
-            bookmark_configs(t_count, 3, true)
+        } else if thorough {
+            // 5 objects with 2 or 3 pages: 0..1 top-level bookmarks + the nested pair
+            bookmark_configs(t_count, 1, false)
         } else {
             bookmark_configs(t_count, 2, false)
         };
+        // 5 objects (thorough only): dangling references always present
+        let dang_modes: &[bool] = if n >= 5 { &[true] } else { &[false, true] };
         let gm = gen_masks(n, thorough && n <= 4);
         let mut t = Tally::default();
         for p in perms(n) {
             for g in &gm {
                 let ids: Vec<ObjectId> = (0..n).map(|i| (set[p[i]], ((g >> i) & 1) as u16)).collect();
-                explore_doc(sh, &ids, "A", &cfgs, &[false, true], shv, &mut t);
+                explore_doc(sh, &ids, "A", &cfgs, dang_modes, shv, &mut t);
             }
         }
         flush(run, &t, "A");
@@ -1214,10 +1217,10 @@ fn main() {
          patterns; thorough: all 2^n for n<=4). Family B: catalog, Pages root, optional intermediate Pages node over a prefix/suffix/all pages, \
          1..4 pages, Info, shared target, unreachable holder, stream - numbers dense from 1, dense from 3 or sparse; page numbers first, last or \
          spread among the others; every permutation of page numbers relative to page order; other roles ascending or descending; 4 generation \
-         patterns (none, all, alternating, pages only; quick with 4 pages: none and alternating). Each structure x start in {1,2,3,n,max+1,1000} + renumber_objects() x dangling refs off/on (quick, family B with 4 pages: on only) \
+         patterns (none, all, alternating, pages only; quick with 4 pages: none and alternating). Each structure x start in {1,2,3,n,max+1,1000} + renumber_objects() x dangling refs off/on (quick family B with 4 pages, and family A with 5 objects: on only) \
          x every bookmark list: family B 0..3 top-level bookmarks over all pages, one top-level + one nested child, two top-level + a child \
          of the second (quick: 4 pages -> 0..2 top-level + the nested pair; 3 pages -> without the last group); family A 0..2 top-level + the \
-         nested pair (thorough, n <= 4 or one target: as family B). Distinct by construction (the tags bind \
+         nested pair (thorough: n <= 4 or one target as family B; 5 objects with 2-3 pages 0..1 top-level + the nested pair). Distinct by construction (the tags bind \
          roles to numbers); a case is non-trivial when the recovered renaming is not the identity; the plain entry point repeats the input of \
          start 1 and is not counted as distinct",
     );
